@@ -40,6 +40,9 @@ func runC06(c *Ctx, r *Report) {
 	r.Rule("C06.R3", "x + y builds a new container: no result of evalArrayInfixExpression / evalMapInfixExpression may hold storage derived from an operand (ownership roots propagated through Elements, append, slicing, NewArray, the Append methods)")
 	r.Rule("C06.R4", "container storage holds values: an object that may be an object.Reference is dereferenced (object.Value) before it is stored into array or map storage; []Object lists that may hold References (argument lists) are followed through slicing, append, variables, returns and parameters, and are clean where they become storage (NewArray and other list-keeping functions, struct fields) only after a full-range sweep l[i] = object.Value(l[i])")
 	r.Rule("C06.R2", "small/large sibling agreement: every type switch over array or map representations has arms for both representations (or the interface)")
+	r.Rule("C06.R5", "the small/large representation is chosen from the logical length: no comparison against object.MaxSmallArray / object.MaxSmallMap reads cap(), directly or through a local defined from it (the small representation is copied by value, the large one keeps the slice it is handed)")
+	c.checkSizeClassByLength(r, "C06.R5")
+	r.Floor("C06.R5", 5)
 	f := c.containerFresh()
 	finds, examined := f.Findings()
 	for _, w := range finds {
